@@ -481,6 +481,9 @@ func (fr *Frame) contractEnv(c ssa.CallInstruction, ci calleeInfo, st *State, pr
 		if recv != nil {
 			env.vars["self"] = *recv
 			env.vars["recv"] = *recv
+		} else if !c.Common().IsInvoke() {
+			// dynamic call: the function value itself
+			env.vars["self"] = fr.val(c.Common().Value)
 		}
 		for i := 0; i < sig.Params().Len() && i < len(args); i++ {
 			if n := sig.Params().At(i).Name(); n != "" && n != "_" {
@@ -746,7 +749,7 @@ func (fe *FuncEnc) pureApp(st *State, name string, args []Term, rts []types.Type
 			isnil := app(sfx+"_nil", SBool)
 			r := fe.newRef(fname + sfx + "_b")
 			fe.heapDecl("HB", "(Array Int String)")
-			fe.hset(st, "HB", fmt.Sprintf("(store %s %s %s)", fe.hget(st, "HB"), r, content))
+			fe.hinit(st, "HB", r, content)
 			n := fe.define(fe.fresh(fname+sfx), SSlice, sIte(isnil, "(mk_slice 0 0 0 0)", fmt.Sprintf("(mk_slice %s 0 (str.len %s) (str.len %s))", r, content, content)))
 			fe.assume(fmt.Sprintf("(=> %s (= %s \"\"))", isnil, content))
 			rets = append(rets, Term{n, k, t})
@@ -758,7 +761,7 @@ func (fe *FuncEnc) pureApp(st *State, name string, args []Term, rts []types.Type
 			ln := fe.define(fe.fresh(fname+sfx+"_len"), SInt, app(sfx+"_len", SInt))
 			fe.assume(fmt.Sprintf("(>= %s 0)", ln))
 			r := fe.newRef(fname + sfx + "_b")
-			fe.hset(st, h, fmt.Sprintf("(store %s %s %s)", fe.hget(st, h), r, arr))
+			fe.hinit(st, h, r, arr)
 			n := fe.define(fe.fresh(fname+sfx), SSlice, fmt.Sprintf("(mk_slice (ite (= %s 0) 0 %s) 0 %s %s)", ln, r, ln, ln))
 			rets = append(rets, Term{n, k, t})
 		default:
@@ -988,7 +991,7 @@ func (fr *Frame) appendModel(c ssa.CallInstruction, st *State, args []Term, rt t
 			addC = fe.bytesContent(st, add.S)
 		}
 		addLen = fmt.Sprintf("(str.len %s)", addC)
-		fe.hset(st, h, fmt.Sprintf("(store %s %s (str.++ %s %s))", cur, r, fe.bytesContent(st, s.S), addC))
+		fe.hinit(st, h, r, fmt.Sprintf("(str.++ %s %s)", fe.bytesContent(st, s.S), addC))
 	} else {
 		addLen = fmt.Sprintf("(s_len %s)", add.S)
 		// new array: elements [0,len s) from s, [len s, len s + len add) from add
@@ -1005,7 +1008,7 @@ func (fr *Frame) appendModel(c ssa.CallInstruction, st *State, args []Term, rt t
 			fe.assume(fmt.Sprintf("(forall ((qi Int)) (=> (and (<= 0 qi) (< qi (s_len %s))) (= (select %s qi) (select (select %s (s_base %s)) (+ (s_off %s) qi)))))", s.S, na, cur, s.S, s.S))
 			fe.assume(fmt.Sprintf("(forall ((qi Int)) (=> (and (<= 0 qi) (< qi (s_len %s))) (= (select %s (+ (s_len %s) qi)) (select (select %s (s_base %s)) (+ (s_off %s) qi)))))", add.S, na, s.S, cur, add.S, add.S))
 		}
-		fe.hset(st, h, fmt.Sprintf("(store %s %s %s)", cur, r, na))
+		fe.hinit(st, h, r, na)
 	}
 	k := fe.sorts.SortOf(rt)
 	nl := fmt.Sprintf("(+ (s_len %s) %s)", s.S, addLen)
@@ -1120,6 +1123,16 @@ func (fe *FuncEnc) callIsHeapNeutral(c ssa.CallInstruction) bool {
 	}
 	fn := cc.StaticCallee()
 	if fn == nil {
+		if mc, ok := cc.Value.(*ssa.MakeClosure); ok {
+			fn = mc.Fn.(*ssa.Function)
+		}
+	}
+	if fn == nil {
+		if n := funcValueName(cc.Value); n != "" {
+			if fc := fe.eng.specs.funcs[fnPkgPath(fe.fn)+"::funcval "+n]; fc != nil {
+				return fc.NoMod || fc.Pure || fc.Modifies != nil
+			}
+		}
 		return false
 	}
 	if libModelNeutral(fullName(fn)) {
@@ -1137,7 +1150,9 @@ func (fe *FuncEnc) callWrites(c ssa.CallInstruction) []string {
 	cc := c.Common()
 	if b, ok := cc.Value.(*ssa.Builtin); ok {
 		switch b.Name() {
-		case "append", "copy":
+		case "append":
+			return nil // copy-on-append: the result lives in a fresh backing array
+		case "copy":
 			if s, ok := cc.Args[0].Type().Underlying().(*types.Slice); ok {
 				h, _, _ := fe.sliceHeap(s.Elem())
 				return []string{h}
@@ -1165,15 +1180,7 @@ func (fe *FuncEnc) callWrites(c ssa.CallInstruction) []string {
 			}
 			out = append(out, fe.heapsMatching(m, calleeInfo{})...)
 		}
-		// results that are freshly allocated slices write their element heaps
-		if fc.Pure {
-			for _, t := range resultTypes(c) {
-				if s, ok := t.Underlying().(*types.Slice); ok {
-					h, _, _ := fe.sliceHeap(s.Elem())
-					out = append(out, h)
-				}
-			}
-		}
+
 	}
 	return out
 }
